@@ -145,6 +145,8 @@ class ConnWorld:
         for name, e in self.ends.items():
             self._wrap(e)
         self.seals = []
+        self.seal_mark = 0
+        self.ivs = []
         self._wrap_crypto()
 
     # -- instrumentation from outside: no source hooks
@@ -272,13 +274,18 @@ class ConnWorld:
         if raw is not None:
             self.emitted[name].append(raw)
             hdr, ms = self.decode(raw)
+            newseals = self.seals[self.seal_mark:]
+            self.seal_mark = len(self.seals)
+            aadok = int(len(newseals) == 1 and newseals[0][0] == self.KEY and newseals[0][1] == raw[:12] and newseals[0][2] == raw[:20])
+            self.ivs.append((name, raw[:12]))
+            leak = int(any(len(m[2]) >= 8 and bytes(m[2][:32]) in raw for m in ms))
             lb = self.last_build[name]
             self.last_build[name] = self.vt.us
             self.ev.append(dict(ev="build", e=name, now=self.now(), dseq=hdr["dseq"], ack=hdr["ack"], ackbits=hdr["ackbits"], type=hdr["type"],
                                 sec=hdr["ctime"], size=len(raw), sealed=hdr["sealed"], count=hdr["count"], length=hdr["length"], ptlen=hdr["ptlen"],
                                 msgs=[self.msgdesc(name, *m) for m in ms], left=[len(m.payload) for m in e.outgoing_messages][:40],
                                 nleft=len(e.outgoing_messages), gap=(self.vt.us - lb) // 100 if lb is not None else -1,
-                                toserver=int(hdr["magic"] == b"FSOS")))
+                                toserver=int(hdr["magic"] == b"FSOS"), nseals=len(newseals), aadok=aadok, leak=leak))
             dgid = len(self.emitted[name])
             fate = [0] if healed else policy.fate(tick, name, dgid, self)
             for d in fate:
